@@ -1,29 +1,88 @@
 //@inject src/fmt/strtime/mod.rs
 //! C16 (field reconciliation): `BrokenDownTime::to_date` on every combination of parsed fields of one kind, against the
-//! calendar.  The two Neri-Schneider conversions are replaced by the closed-form day count `rd` (greg.vrs; the Verus
-//! unit itime proves the real `IDate::to_epoch_day` computes it) and by its inverse (`IEpochDay::to_date`).
+//! calendar.  The two Neri-Schneider conversions (`IDate::to_epoch_day`, `IEpochDay::to_date`) are replaced by an
+//! axiomatised day count around the year under test (see `ax_init`); everything else is the real code.
 use super::*;
 use crate::shared::util::itime::{IDate, IEpochDay};
 use crate::verif_kani::spec::*;
 
-fn rd(y: i32, m: i32, d: i32) -> i32 {
-    let yy = if m <= 2 { y - 1 } else { y };
-    let mm = if m <= 2 { m + 12 } else { m };
-    365 * yy + yy.div_euclid(4) - yy.div_euclid(100) + yy.div_euclid(400) + (153 * (mm - 3) + 2) / 5 + d - 1 - 719468
+// ---- the day count E around one "hint" year, axiomatised (no Neri-Schneider code, no closed form):
+//   E(y,m,d) = J(y) + doy(y,m,d) - 1           (greg.vrs lemma_doy_rd)
+//   J(y+1)   = J(y) + days_in_year(y)           (greg.vrs lemma_rd_year)
+// for the four years hint-1 ..= hint+2, with J(hint) arbitrary such that the three years hint-1..=hint+1 lie in the supported range, and the two range
+// anchors J(-9999) = -4371587 and J(9999) = 2932532 (lemma_rd_bounds: E(9999,12,31) = 2932896).  Every fact is one the Verus
+// unit itime proves of the real `IDate::to_epoch_day`; `IEpochDay::to_date` is its inverse.  Both stubs ASSERT that they are
+// only asked about these years, so nothing is assumed elsewhere.
+static mut AX_H: i32 = 0;
+static mut AX_J: i32 = 0;
+fn ax_init(h: i32) {
+    let j: i32 = kani::any();
+    kani::assume(E_MIN <= j && j <= E_MAX - 364);
+    if h == -9999 { kani::assume(j == E_MIN); }
+    if h == 9999 { kani::assume(j == 2932532); }
+    unsafe { AX_H = h; AX_J = j; }
+    // every day of the years hint-1 ..= hint+1 that exists lies in the supported range (lemma_rd_bounds + monotonicity)
+    if h > -9999 { kani::assume(ax_jan1(h - 1) >= E_MIN); }
+    if h < 9999 { kani::assume(ax_jan1(h + 2) - 1 <= E_MAX); }
 }
-fn rd_to_epoch_day(d: &IDate) -> IEpochDay {
+fn ax_jan1(y: i32) -> i32 {
+    let (h, j) = unsafe { (AX_H, AX_J) };
+    if y == h { j }
+    else if y == h + 1 { j + diy(h as i64) as i32 }
+    else if y == h + 2 { j + diy(h as i64) as i32 + diy(h as i64 + 1) as i32 }
+    else if y == h - 1 { j - diy(h as i64 - 1) as i32 }
+    else { assert!(false, "day count asked about a year outside hint-1..=hint+2"); 0 }
+}
+fn ax_e(y: i64, m: i64, d: i64) -> i64 { ax_jan1(y as i32) as i64 + doy(y, m, d) - 1 }
+fn ax_to_epoch_day(d: &IDate) -> IEpochDay {
+    // precondition of the verified contract: a supported date, or 10000-01-04 (the one extra date the ISO week code builds, see c01_isoweek)
     assert!(valid(d.year as i64, d.month as i64, d.day as i64) || (d.year == 10000 && d.month == 1 && d.day == 4));
-    IEpochDay { epoch_day: rd(d.year as i32, d.month as i32, d.day as i32) }
+    IEpochDay { epoch_day: ax_e(d.year as i64, d.month as i64, d.day as i64) as i32 }
 }
-fn rd_to_date(e: &IEpochDay) -> IDate {
+fn ax_to_date(e: &IEpochDay) -> IDate {
     assert!(E_MIN <= e.epoch_day && e.epoch_day <= E_MAX);
+    let h = unsafe { AX_H };
     let d = IDate { year: kani::any(), month: kani::any(), day: kani::any() };
     kani::assume(valid(d.year as i64, d.month as i64, d.day as i64));
-    kani::assume(rd(d.year as i32, d.month as i32, d.day as i32) == e.epoch_day);
+    let mut hit = false;
+    let mut i = -1;
+    while i <= 1 {
+        let yy = h + i;
+        if -9999 <= yy && yy <= 9999 {
+            let k = (e.epoch_day - ax_jan1(yy)) as i64;
+            if 0 <= k && k < diy(yy as i64) {
+                kani::assume(d.year as i32 == yy && doy(yy as i64, d.month as i64, d.day as i64) == k + 1);
+                hit = true;
+            }
+        }
+        i += 1;
+    }
+    assert!(hit, "to_date asked about a day outside the years hint-1..=hint+1");
     d
 }
+// the weekday of a day number near the hint year, W(e) = (W(J(hint)) + (e - J(hint))) mod 7 -- what the contract of
+// `IEpochDay::weekday` (wd(e) = (e + 3) mod 7, Verus unit itime) says, written relative to January 1 of the hint year so
+// that the model checker reasons modulo 7 about small numbers only; W(J(hint)) is arbitrary (0 = Monday) except at the anchors
+static mut AX_W0: i16 = 0;
+fn ax_init_weekday(h: i32) {
+    let w0: i16 = kani::any();
+    kani::assume(0 <= w0 && w0 <= 6);
+    if h == -9999 { kani::assume(w0 == 0); }   // -9999-01-01 is a Monday: (-4371587 + 3) mod 7 == 0
+    if h == 9999 { kani::assume(w0 == 4); }    // 9999-01-01 is a Friday: (2932532 + 3) mod 7 == 4
+    unsafe { AX_W0 = w0; }
+}
+fn ax_wd0(e: i64) -> i16 {
+    let (j, w0) = unsafe { (AX_J, AX_W0) };
+    let k = e - j as i64;
+    assert!(-800 <= k && k <= 1200, "weekday asked about a day far from the hint year");
+    (w0 + k as i16).rem_euclid(7)
+}
+fn ax_weekday(e: &IEpochDay) -> crate::shared::util::itime::IWeekday {
+    crate::shared::util::itime::IWeekday::from_monday_zero_offset(ax_wd0(e.epoch_day as i64) as i8)
+}
 fn any_opt_weekday() -> Option<Weekday> { if kani::any() { Some(any_weekday()) } else { None } }
-fn wd_of(y: i64, m: i64, d: i64) -> i64 { wd(rd(y as i32, m as i32, d as i32) as i64) }
+static mut ISO_MODE: bool = false;
+fn wd_of(y: i64, m: i64, d: i64) -> i64 { if unsafe { ISO_MODE } { ax_wd0(ax_e(y, m, d)) as i64 + 1 } else { wd(ax_e(y, m, d)) } }
 
 //@harness c16_to_date_gregorian
 //@target fmt::strtime::BrokenDownTime::{to_date,to_date_from_gregorian} (%Y %m %d with an optional weekday %a/%A/%u/%w) (src/fmt/strtime/mod.rs)
@@ -32,8 +91,8 @@ fn wd_of(y: i64, m: i64, d: i64) -> i64 { wd(rd(y as i32, m as i32, d as i32) as
 //@timeout 900
 //@doc for every year -9999..=9999, month 1..=12, day 1..=31 (everything the field parsers can store) and an optional weekday: Ok <=> the day exists in that month of that year AND the weekday, if given, is the weekday of that date (a contradicting weekday is rejected); Ok(date) has exactly these year, month, day.  A day-of-year (%j) or week numbers (%U %W) given in addition are NOT cross-checked: they are ignored (shown here by leaving them arbitrary)
 #[kani::proof]
-#[kani::stub(IDate::to_epoch_day, rd_to_epoch_day)]
-#[kani::stub(IEpochDay::to_date, rd_to_date)]
+#[kani::stub(IDate::to_epoch_day, ax_to_epoch_day)]
+#[kani::stub(IEpochDay::to_date, ax_to_date)]
 #[kani::unwind(6)]
 fn c16_to_date_gregorian() {
     let y: i16 = kani::any(); kani::assume(-9999 <= y && y <= 9999);
@@ -42,6 +101,7 @@ fn c16_to_date_gregorian() {
     let wk = any_opt_weekday();
     let j: i16 = kani::any(); kani::assume(1 <= j && j <= 366);
     let u: i8 = kani::any(); kani::assume(0 <= u && u <= 53);
+    ax_init(y as i32);
     let tm = BrokenDownTime {
         year: Some(t::Year::new_unchecked(y)), month: Some(t::Month::new_unchecked(m)), day: Some(t::Day::new_unchecked(d)),
         weekday: wk,
@@ -62,11 +122,11 @@ fn c16_to_date_gregorian() {
 //@target fmt::strtime::BrokenDownTime::{to_date,to_date_from_day_of_year} + civil::DateWith::build + IDate::from_day_of_year (%Y %j with an optional weekday) (src/fmt/strtime/mod.rs, src/civil/date.rs, src/shared/util/itime.rs)
 //@prop C16
 //@tier quick
-//@timeout 1200
+//@timeout 900
 //@doc for every year, day-of-year 1..=366 and optional weekday (month and day not both given): Ok <=> the ordinal day exists in the year (366 only in leap years) AND the weekday, if given, agrees; Ok(date) is THE date of that year with that ordinal day (so %j of the result prints the parsed number: c16_numeric_calendar_facts), i.e. "%Y %j" inverts
 #[kani::proof]
-#[kani::stub(IDate::to_epoch_day, rd_to_epoch_day)]
-#[kani::stub(IEpochDay::to_date, rd_to_date)]
+#[kani::stub(IDate::to_epoch_day, ax_to_epoch_day)]
+#[kani::stub(IEpochDay::to_date, ax_to_date)]
 #[kani::unwind(6)]
 fn c16_to_date_ordinal() {
     let y: i16 = kani::any(); kani::assume(-9999 <= y && y <= 9999);
@@ -75,6 +135,7 @@ fn c16_to_date_ordinal() {
     let m: i8 = kani::any(); kani::assume(1 <= m && m <= 12);
     let d: i8 = kani::any(); kani::assume(1 <= d && d <= 31);
     let partial: u8 = kani::any(); kani::assume(partial < 3);
+    ax_init(y as i32);
     let tm = BrokenDownTime {
         year: Some(t::Year::new_unchecked(y)), day_of_year: Some(t::DayOfYear::new_unchecked(j)), weekday: wk,
         month: if partial == 1 { Some(t::Month::new_unchecked(m)) } else { None },
@@ -88,6 +149,8 @@ fn c16_to_date_ordinal() {
         Ok(date) => {
             let (y2, m2, d2) = ymd(date);
             assert!(exists && y2 == yy && doy(y2, m2, d2) == j as i64);
+            kani::cover!(j == 366);
+            kani::cover!(wk.is_some());
             if let Some(w) = wk { assert!(wnum(w) == wd_of(y2, m2, d2)); }
         }
         Err(_) => {
@@ -117,16 +180,20 @@ fn iso_ref(y: i64, m: i64, d: i64) -> (i64, i64) {
 //@target fmt::strtime::BrokenDownTime::{to_date,to_date_from_iso} + civil::ISOWeekDate::{new_ranged,date} + Date::from_iso_week_date (%G %V with %u/%a, no %Y) (src/fmt/strtime/mod.rs, src/civil/iso_week_date.rs, src/civil/date.rs)
 //@prop C16 C01
 //@tier quick
-//@timeout 1500
+//@timeout 900
 //@doc for every ISO year -9999..=9999, week 1..=53 and weekday (no Gregorian year given): Ok(date) => the date's ISO week-based year and week (reference: those of the Thursday of its week) are the given ones and its weekday is the given one -- so %G %V %u of the result print the parsed numbers; Err only for week 53 of a year whose week 53 does not exist (the would-be date lies in week 1 of the next ISO year) or for 9999-W52-6/7 (after 9999-12-31)
 #[kani::proof]
-#[kani::stub(IDate::to_epoch_day, rd_to_epoch_day)]
-#[kani::stub(IEpochDay::to_date, rd_to_date)]
+#[kani::stub(IDate::to_epoch_day, ax_to_epoch_day)]
+#[kani::stub(IEpochDay::to_date, ax_to_date)]
+#[kani::stub(IEpochDay::weekday, ax_weekday)]
 #[kani::unwind(6)]
 fn c16_to_date_iso() {
     let gy: i16 = kani::any(); kani::assume(-9999 <= gy && gy <= 9999);
     let gw: i8 = kani::any(); kani::assume(1 <= gw && gw <= 53);
     let w = any_weekday();
+    ax_init(gy as i32);
+    ax_init_weekday(gy as i32);
+    unsafe { ISO_MODE = true; }
     let tm = BrokenDownTime {
         iso_week_year: Some(t::ISOYear::new_unchecked(gy)), iso_week: Some(t::ISOWeek::new_unchecked(gw)), weekday: Some(w),
         ..BrokenDownTime::default()
@@ -136,6 +203,11 @@ fn c16_to_date_iso() {
             let (y, m, d) = ymd(date);
             assert!(iso_ref(y, m, d) == (gy as i64, gw as i64));
             assert!(wd_of(y, m, d) == wnum(w));
+            kani::cover!(gw == 53);
+            kani::cover!(y == gy as i64 - 1);
+            kani::cover!(y == gy as i64 + 1);
+            kani::cover!(gy == 9999 && gw == 52 && wnum(w) == 5);
+            kani::cover!(gy == -9999 && gw == 1 && wnum(w) == 1);
         }
         Err(_) => {
             // January 4 is always in week 1; week 53 exists iff Dec 28 + 7 days still has its Thursday in the year, i.e. the
@@ -143,6 +215,8 @@ fn c16_to_date_iso() {
             let jan1 = wd_of(gy as i64, 1, 1);
             let long = jan1 == 4 || (jan1 == 3 && is_leap(gy as i64));
             assert!((gw == 53 && !long) || (gy == 9999 && gw == 52 && wnum(w) >= 6));
+            kani::cover!(gw == 53);
+            kani::cover!(gy == 9999 && gw == 52);
         }
     }
 }
